@@ -524,30 +524,30 @@ theorem devicesFlat_single (g : Grp) (b : Nat) :
   unfold devicesFlat
   simp only [grpDevsFlat_single, List.map_flatMap]
 
-theorem firstMatches_le_one {ms : List (List Dev)} (h : ms.length ≤ 1) (k b : Nat) :
-    firstMatches ms k b = ms.flatMap fun m => modelMatches m k b := by
-  match ms, h with
-  | [], _ => rfl
-  | [m], _ =>
-    simp only [firstMatches, List.flatMap_cons, List.flatMap_nil, List.append_nil]
-    split <;> simp_all
-
 /-- identifiers of the devices of a group -/
 def grpIds (g : Grp) : List Nat := g.models.flatMap fun m => m.map (·.id)
 
-theorem mem_ids_single {m : List Dev} (hn : (m.map (·.id)).Nodup) (nsrc b : Nat) {d : Dev} (hd : d ∈ m) :
-    d.id ∈ ((List.range nsrc).flatMap fun k => modelMatches m k b) ↔ attachedB nsrc b d = true := by
-  unfold attachedB modelMatches
+theorem grpIds_eq (g : Grp) : grpIds g = g.models.flatten.map (·.id) := by
+  unfold grpIds
+  rw [List.map_flatten, List.flatMap_def]
+
+/-- with distinct idx in the group, a device's idx is among the matches iff the device is attached to the bus -/
+theorem mem_ids_group {g : Grp} (hn : (grpIds g).Nodup) (b : Nat) {m : List Dev} {d : Dev} (hm : m ∈ g.models) (hd : d ∈ m) :
+    d.id ∈ ((List.range g.nsrc).flatMap fun k => firstMatches g.models k b) ↔ attachedB g.nsrc b d = true := by
+  unfold attachedB firstMatches modelMatches
   simp only [List.mem_flatMap, List.mem_range, List.mem_map, List.mem_filter, List.any_eq_true, beq_iff_eq]
+  rw [grpIds_eq] at hn
+  have hdf : d ∈ g.models.flatten := List.mem_flatten.mpr ⟨m, hm, hd⟩
   constructor
-  · rintro ⟨k, hk, d', ⟨hd', hb⟩, hid⟩
-    have : d' = d := List.inj_on_of_nodup_map hn hd' hd hid
+  · rintro ⟨k, hk, m', hm', d', ⟨hd', hb⟩, hid⟩
+    have hdf' : d' ∈ g.models.flatten := List.mem_flatten.mpr ⟨m', hm', hd'⟩
+    have : d' = d := List.inj_on_of_nodup_map hn hdf' hdf hid
     exact ⟨k, hk, this ▸ hb⟩
   · rintro ⟨k, hk, hb⟩
-    exact ⟨k, hk, d, ⟨hd, hb⟩, rfl⟩
+    exact ⟨k, hk, m, hm, d, ⟨hd, hb⟩, rfl⟩
 
-/-- `act` on one group, one bus off, at most one model, distinct idx: exactly the attached devices go off -/
-theorem actGroup_single {g : Grp} (hm : g.models.length ≤ 1) (hn : (grpIds g).Nodup) (b : Nat) :
+/-- `act` on one group, one bus off, distinct idx: exactly the attached devices go off, in EVERY model of the group -/
+theorem actGroup_single {g : Grp} (hn : (grpIds g).Nodup) (b : Nat) :
     actGroup g [b] = .ok { g with models := g.models.map fun m => m.map (offIfAttached g.nsrc b) } := by
   have hnone : none ∉ devicesFlat g [b] := by rw [devicesFlat_single]; simp
   rw [actGroup_ok hnone, devicesFlat_single]
@@ -557,30 +557,24 @@ theorem actGroup_single {g : Grp} (hm : g.models.length ≤ 1) (hn : (grpIds g).
   rw [hfm]
   unfold setOff
   congr 2
-  match hg : g.models, hm with
-  | [], _ => rfl
-  | [m], _ =>
-    have hn' : (m.map (·.id)).Nodup := by simpa [grpIds, hg] using hn
-    simp only [List.map_cons, List.map_nil, List.cons.injEq, and_true]
-    apply List.map_congr_left
-    intro d hd
-    have h1 : (fun k => firstMatches [m] k b) = fun k => modelMatches m k b := by
-      funext k; rw [firstMatches_le_one (by simp)]; simp
-    rw [h1]
-    unfold offIfAttached
-    have := mem_ids_single hn' g.nsrc b hd
-    by_cases ha : attachedB g.nsrc b d = true
-    · simp [ha, this.mpr ha]
-    · have hni : d.id ∉ ((List.range g.nsrc).flatMap fun k => modelMatches m k b) := fun h => ha (this.mp h)
-      simp [ha, hni]
+  apply List.map_congr_left
+  intro m hm
+  apply List.map_congr_left
+  intro d hd
+  unfold offIfAttached
+  have := mem_ids_group hn b hm hd
+  by_cases ha : attachedB g.nsrc b d = true
+  · simp [ha, this.mpr ha]
+  · have hni : d.id ∉ ((List.range g.nsrc).flatMap fun k => firstMatches g.models k b) := fun h => ha (this.mp h)
+    simp [ha, hni]
 
-theorem actGroups_single : ∀ (gs : List Grp) (b : Nat), (∀ g ∈ gs, g.models.length ≤ 1 ∧ (grpIds g).Nodup) →
+theorem actGroups_single : ∀ (gs : List Grp) (b : Nat), (∀ g ∈ gs, (grpIds g).Nodup) →
     actGroups gs [b] = (gs.map fun g => { g with models := g.models.map fun m => m.map (offIfAttached g.nsrc b) }, none)
   | [], _, _ => rfl
   | g :: gs, b, h => by
     have hg := h g (List.mem_cons_self ..)
     have ih := actGroups_single gs b (fun g' hg' => h g' (List.mem_cons_of_mem _ hg'))
-    simp only [actGroups, actGroup_single hg.1 hg.2 b, ih, List.map_cons]
+    simp only [actGroups, actGroup_single hg b, ih, List.map_cons]
 
 /-! ### neutralising isolated buses -/
 
